@@ -12,7 +12,7 @@ COMP = {"java": JavaCompiler, "kotlin": KotlinCompiler, "groovy": GroovyCompiler
 
 
 def analyse(lang, text, nfiles, root=render.ROOT):
-    c = COMP[lang](root, filter_patterns=[render.FILTER[lang]])
+    c = COMP[lang](root, filter_patterns=render.filters(lang))
     exc = ""
     try:
         failed, _ = c.analyze_compiler_output(text)
